@@ -1014,7 +1014,9 @@ class VerbatimEnvironment(NoCharSubEnvironment):
                         res = [end]
                     tex.pushTokens(res)
                     break
-            if len(tokens) >= endlength2:
+            # \endname only ends the command form (\name ... \endname)
+            if self.macroMode == Environment.MODE_NONE and \
+               len(tokens) >= endlength2:
                 if tokens[-endlength2:] == endpattern2:
                     tokens = tokens[:-endlength2]
                     self.ownerDocument.context.pop(self)
